@@ -190,6 +190,15 @@ pub fn c11(run: &mut Run) -> Stats {
             CompileOutcome::Ok(r) => r,
             _ => continue, // reported by part 1
         };
+        // the same property as a bare atom and inside a class, unanchored: on a member string the first
+        // match is the whole string (the strings of a set are tried longest first, ES2025 22.2.2.7 / 22.2.2.9)
+        let unanchored: Vec<(String, regress::Regex)> = [format!("\\p{{{}}}", name), format!("[\\p{{{}}}]", name), format!("(?<=^\\p{{{}}})$", name)]
+            .into_iter()
+            .filter_map(|p| match subject::compile(&cps(&p), Flags::parse("v"), false) {
+                CompileOutcome::Ok(r) => Some((p, r)),
+                _ => None,
+            })
+            .collect();
         let s = t
             .universe
             .par_iter()
@@ -200,6 +209,22 @@ pub fn c11(run: &mut Run) -> Stats {
                 let exp = acc.contains(u);
                 if exp {
                     st.add("nontrivial", 1);
+                    for (p, re_un) in &unanchored {
+                        st.add("evaluations", 1);
+                        st.add("validated", 1);
+                        let want = if p.starts_with("(?<=") { (text.len(), text.len()) } else { (0, text.len()) };
+                        let got = subject::guarded(50_000_000, || re_un.find(&text).map(|m| (m.start(), m.end())));
+                        if got != Outcome::Ok(Some(want)) {
+                            let seq: Vec<String> = u.iter().map(|c| format!("U+{:04X}", c)).collect();
+                            st.violation(
+                                &known,
+                                "C11",
+                                &format!("{} does not match a member string whole (longest first)", p.replace(name.as_str(), "<strings>")),
+                                u.len(),
+                                case(name, "v", false, &format!("/{}/v on the member string [{}]: first match is not the whole string", p, seq.join(" ")), J::s(&format!("{:?}", want)), J::s(&format!("{:?}", got))).set("string", J::cps(u)),
+                            );
+                        }
+                    }
                 }
                 let got = subject::guarded(50_000_000, || re.find(&text).is_some());
                 if got != Outcome::Ok(exp) {
@@ -220,7 +245,7 @@ pub fn c11(run: &mut Run) -> Stats {
         st3 = st3.merge(s);
     }
     run.rule = format!(
-        "acceptance: {} candidate expressions (every expression the oracle lists as accepted or rejected: names, values and aliases of all Unicode properties known to Perl UCD 14 and ES, scripts of Unicode 15-17, case/underscore/space variants, wrong property prefixes, plus {} built from string literals found in the subject's own name tables) x {{u,v}} x {{\\p,\\P}}; membership: every accepted expression x {{u,v}} x {{\\p,\\P}} over all 1,112,064 scalar values (one scan of the all-scalars haystack each); strings: {} judged strings x 7 properties of strings under v; non-trivial = expression admitted by ES / string is a member",
+        "acceptance: {} candidate expressions (every expression the oracle lists as accepted or rejected: names, values and aliases of all Unicode properties known to Perl UCD 14 and ES, scripts of Unicode 15-17, case/underscore/space variants, wrong property prefixes, plus {} built from string literals found in the subject's own name tables) x {{u,v}} x {{\\p,\\P}}; membership: every accepted expression x {{u,v}} x {{\\p,\\P}} over all 1,112,064 scalar values (one scan of the all-scalars haystack each); strings: {} judged strings x 7 properties of strings under v as /^\\p{{..}}$/, and every member string against the unanchored forms /\\p{{..}}/, /[\\p{{..}}]/ and /(?<=^\\p{{..}})$/ (whole-string first match, forwards and backwards); non-trivial = expression admitted by ES / string is a member",
         cands.len(),
         from_source,
         t.universe.len()
